@@ -222,43 +222,33 @@ def r2(idx, rep):
 
 
 def copies(idx, rep, rid):
+    """every csvpath gets its own copy of the line monitor and of the header list the cacher holds — cold (counted now), warm in memory, and
+    warm from the cache directory (public accessors only, one file through two lives of a FileCacher: c19.cacher_history)"""
+    from . import c19
     fm = idx.method("FileCacher", "get_new_line_monitor")
     fh = idx.method("FileCacher", "get_original_headers")
     rep.analysed(fm, fh)
-    cached = Obj("CACHED_LM")
-    it = Interp(idx, types={"self": "FileCacher"}, unknown_calls="error", inline_all={"FileCacher"},
-                handlers={"CACHED_LM.copy": lambda i, c, r, a, k: Obj("COPY"), "copy.copy": lambda i, c, r, a, k: Obj("COPY"),
-                          "copy.deepcopy": lambda i, c, r, a, k: Obj("COPY"), "self._find_lines_and_headers": lambda i, c, r, a, k: None})
-    ps = it.run_all(fm, args={"filename": "f"}, store={"self.pathed_lines_and_headers": {"f": (cached, ["a", "b"])}})
-    okm = len(ps) == 1 and ps[0].result == ("return", Obj("COPY"))
-    # cold: first request for the file, the monitor comes from the cache file or a fresh count and is kept as the master copy
-    for src in ("cache", "count"):
-        itc = Interp(idx, types={"self": "FileCacher"}, unknown_calls="residual", inline_all={"FileCacher"},
-                     handlers={"CACHED_LM.copy": lambda i, c, r, a, k: Obj("COPY"), "copy.copy": lambda i, c, r, a, k: Obj("COPY"), "copy.deepcopy": lambda i, c, r, a, k: Obj("COPY"),
-                               # the boundary is the Cache object and the LineMonitor/LineCounter classes; the cacher's own private helpers are followed
-                               "LineMonitor": lambda i, c, r, a, k: cached, "CACHED_LM.load": lambda i, c, r, a, k: None, "CACHED_LM.dump": lambda i, c, r, a, k: "{}",
-                               "self.cache.cached_text": lambda i, c, r, a, k, src=src: None if src == "count" else ("{}" if a[1] == "json" else ["a", "b"]),
-                               "self.cache.cache_text": lambda i, c, r, a, k: None,
-                               "io.StringIO": lambda i, c, r, a, k: Obj("buf"), "csv.writer": lambda i, c, r, a, k: Obj("w"), "w.writerow": lambda i, c, r, a, k: None,
-                               "buf.getvalue": lambda i, c, r, a, k: "a,b",
-                               "LineCounter": lambda i, c, r, a, k: Obj("lc"), "lc.get_lines_and_headers": lambda i, c, r, a, k: (cached, ["a", "b"])})
-        pc = itc.run_all(fm, args={"filename": "f"}, store={"self.pathed_lines_and_headers": {}})
-        okc = len(pc) == 1 and pc[0].result == ("return", Obj("COPY")) and pc[0].final_store.get("self.pathed_lines_and_headers", {}).get("f", (None,))[0] == cached
-        if not okc:
+    okm = okh = True
+    dm = dh = ""
+    for keep_memory in (False, True):
+        fs, ps = c19.cacher_history(idx, c19.stdlib_handlers(), ["a", "b"], keep_memory=keep_memory)
+        if len(ps) != 1 or ps[0].result[0] != "return":
+            okm = okh = False
+            dm = dh = f"{[p.result for p in ps][:2]}"
+            continue
+        r1, m1, r2, m2 = ps[0].result[1]
+        want2 = Obj("COPY_OF_COUNTED") if keep_memory else Obj("COPY_OF_LOADED")
+        if m1 != Obj("COPY_OF_COUNTED") or m2 != want2:
             okm = False
-            ps = pc
+            dm = f"first request returns {m1!r}, the next one ({'same instance' if keep_memory else 'new process'}) {m2!r}"
+        held = [v[1] for v in (ps[0].final_store.get("self.pathed_lines_and_headers") or {}).values() if isinstance(v, (tuple, list)) and len(v) == 2]
+        if r1 != ["a", "b"] or r2 != ["a", "b"] or any(r1 is h_ or r2 is h_ for h_ in held) or r1 is r2:
+            okh = False
+            dh = f"headers handed out {r1!r} / {r2!r}; held {held!r}"
     rep.check(okm, rid, f"{fm.file}::FileCacher.get_new_line_monitor returns a copy",
-              f"returns {ps[0].result if ps else None}: every csvpath must get its own copy of the cached LineMonitor (a shared monitor carries line counters from one member into the next)", K.where(fm, fm.node))
-    hdr = ["a", "b"]
-    it = Interp(idx, types={"self": "FileCacher"}, unknown_calls="error", inline_all={"FileCacher"}, handlers={"self._find_lines_and_headers": lambda i, c, r, a, k: None})
-    ps = it.run_all(fh, args={"filename": "f"}, store={"self.pathed_lines_and_headers": {"f": (cached, hdr)}})
-    okh = len(ps) == 1 and ps[0].result[0] == "return" and ps[0].result[1] == ["a", "b"]
-    if okh:
-        # identity: the interpreter deep-copies the store per run, so compare with the list held in the final store
-        held = ps[0].final_store["self.pathed_lines_and_headers"]["f"][1]
-        okh = ps[0].result[1] is not held
+              f"{dm}: every csvpath must get its own copy of the cached LineMonitor (a shared monitor carries line counters from one member into the next)", K.where(fm, fm.node))
     rep.check(okh, rid, f"{fh.file}::FileCacher.get_original_headers returns a copy",
-              "the cached header list itself is handed out: one member's header rewrite (append(), reset_headers()) would leak into every other member", K.where(fh, fh.node))
+              f"{dh}: the cached header list itself is handed out: one member's header rewrite (append(), reset_headers()) would leak into every other member", K.where(fh, fh.node))
 
 
 def r4(idx, rep):
